@@ -657,3 +657,107 @@ Lemma autosave_saved_reopen_example :
              [ASetAuto false; AOp (PPush 0%N); AOp (PPush 2%N); ASaveIndex; AOp PReopen] in
   snd r = true /\ predecessors (o_graph (a_s (fst r))) 0%N = [2%N].
 Proof. vm_compute. repeat split. Qed.
+
+(* ---- fuel: whole histories complete (not only single steps) ---- *)
+Section HistoryFuel.
+Variable content : node -> list node.
+Variable isman : node -> bool.
+Variable U : list node.
+Hypothesis closed : forall u, In u U -> forall c, In c (content u) -> In c U.
+
+Definition ents (s : ostore) : Prop :=
+  forall x, In x (o_tagged s) \/ In x (o_bydigest s) \/ In x (o_dtagged s) \/ In x (o_dbydigest s) \/
+            In x (g_nodes (o_graph s)) -> In x U.
+Definition op_in (o : oop) : Prop :=
+  match o with
+  | PPush n | PTag n | PUntag n | PDelete n => In n U
+  | PGC kept => forall x, In x kept -> In x U
+  | PReopen => True
+  | PForeign _ => False
+  end.
+
+Lemma pre_in_U sok r x : In r U -> pre content sok r x -> In x U.
+Proof. intros Hr H. induction H; auto. eapply closed; eauto. Qed.
+
+Lemma remove_dang_nodes g n d : In d (snd (remove g n)) -> In d (g_nodes g).
+Proof.
+  unfold remove, remove_ord.
+  destruct (fold_left (rm_step (g_nodes g) n) (getd (g_succs g) n) (g_preds g, [])) as [pm dang] eqn:E.
+  simpl. intro H.
+  assert (In d (snd (fold_left (rm_step (g_nodes g) n) (getd (g_succs g) n) (g_preds g, [])))) as H'
+    by (rewrite E; exact H).
+  apply rm_fold_dang in H'. destruct H' as [[]|(_ & _ & Hn)]. exact Hn.
+Qed.
+
+Lemma load_nodes_in_U sok fuel roots g' :
+  (forall r, In r roots -> In r U) -> load content sok fuel roots = (g', true) ->
+  forall x, In x (g_nodes g') -> In x U.
+Proof.
+  intros Hr HL x Hx. destruct (load_exact content sok fuel roots g' HL) as [Hn _].
+  apply Hn in Hx. destruct Hx as (r & Hin & Hpre & _). apply (pre_in_U sok r x); auto.
+Qed.
+
+Lemma ostep_term fuel s o :
+  1 + pot content U [] < fuel -> ents s -> op_in o ->
+  snd (ostep true true true content isman fuel s o) = true /\
+  ents (fst (ostep true true true content isman fuel s o)).
+Proof.
+  intros Hf He Ho. unfold ents in *.
+  assert (forall x, In x (o_tagged s) -> In x U) as E1 by (intros; apply He; auto).
+  assert (forall x, In x (o_bydigest s) -> In x U) as E2 by (intros; apply He; auto).
+  assert (forall x, In x (o_dtagged s) -> In x U) as E3 by (intros; apply He; auto).
+  assert (forall x, In x (o_dbydigest s) -> In x U) as E4 by (intros; apply He; auto 6).
+  assert (forall x, In x (g_nodes (o_graph s)) -> In x U) as E5 by (intros; apply He; auto 6).
+  destruct o; cbn [ostep]; simpl in Ho.
+  - destruct (smem n (o_blobs s)); [split; auto|].
+    destruct (isman n); simpl; (split; [reflexivity|]); intros x Hx;
+      repeat rewrite In_sadd in Hx; intuition (subst; auto).
+  - destruct (smem n (o_blobs s)); simpl; (split; [reflexivity|]); auto.
+    intros x Hx. repeat rewrite In_sadd in Hx. intuition (subst; auto).
+  - simpl. split; [reflexivity|]. intros x Hx. repeat rewrite In_sdel in Hx. intuition auto.
+  - destruct (remove (o_graph s) n) as [g' dang] eqn:ER.
+    assert (forall d, In d dang -> In d U) as Hd.
+    { intros d Hdd. apply He. right. right. right. right.
+      apply (remove_dang_nodes (o_graph s) n). rewrite ER. exact Hdd. }
+    assert (forall x, In x (g_nodes g') -> In x U) as Hg.
+    { intros x Hx. apply He. right. right. right. right.
+      assert (g' = fst (remove (o_graph s) n)) as -> by (rewrite ER; reflexivity).
+      apply remove_ord_nodes in Hx. tauto. }
+    match goal with |- context [if ?c then _ else _] => destruct c end; simpl;
+      (split; [reflexivity|]); intros x Hx;
+      repeat rewrite in_app_iff in Hx; repeat rewrite filter_In in Hx; repeat rewrite In_sdel in Hx;
+      intuition auto.
+  - assert (forall r, In r (o_tagged s ++ kept) -> In r U) as Hr.
+    { intros r Hr. apply in_app_iff in Hr. destruct Hr; auto. }
+    pose proof (load_fuel_ok content (o_sok isman s) U fuel _ closed Hf Hr) as Hok.
+    destruct (load content (o_sok isman s) fuel (o_tagged s ++ kept)) as [g' ok] eqn:E.
+    simpl in Hok. subst ok. simpl. split; [reflexivity|].
+    pose proof (load_nodes_in_U (o_sok isman s) fuel _ g' Hr E) as Hg.
+    intros x Hx. repeat rewrite in_app_iff in Hx. repeat rewrite filter_In in Hx. intuition auto.
+  - assert (forall r, In r (o_dtagged s ++ o_dbydigest s) -> In r U) as Hr.
+    { intros r Hr. apply in_app_iff in Hr. destruct Hr; auto. }
+    pose proof (load_fuel_ok content (o_sok isman s) U fuel _ closed Hf Hr) as Hok.
+    destruct (load content (o_sok isman s) fuel (o_dtagged s ++ o_dbydigest s)) as [g' ok] eqn:E.
+    simpl in Hok. subst ok. simpl. split; [reflexivity|].
+    pose proof (load_nodes_in_U (o_sok isman s) fuel _ g' Hr E) as Hg.
+    intros x Hx. repeat rewrite in_app_iff in Hx. intuition auto.
+  - destruct Ho.
+Qed.
+
+Lemma orun_term fuel ops : forall s,
+  1 + pot content U [] < fuel -> ents s -> Forall op_in ops ->
+  snd (orun true true true content isman fuel s ops) = true.
+Proof.
+  induction ops as [|o r IH]; intros s Hf He Ho; simpl; auto.
+  inversion Ho; subst.
+  destruct (ostep_term fuel s o Hf He H1) as [Hok He'].
+  destruct (ostep true true true content isman fuel s o) as [s1 ok1]. simpl in *. subst ok1.
+  specialize (IH s1 Hf He' H2).
+  destruct (orun true true true content isman fuel s1 r) as [s2 ok2]. simpl in *. subst. reflexivity.
+Qed.
+
+Lemma store_history_terminates fuel ops :
+  1 + pot content U [] < fuel -> Forall op_in ops ->
+  snd (orun true true true content isman fuel empty_store ops) = true.
+Proof. intros Hf Ho. apply orun_term; auto. intros x Hx. simpl in Hx. tauto. Qed.
+End HistoryFuel.
